@@ -182,6 +182,8 @@ enum Op {
     Hint(u8),
     Fmt(u8),
     Clone(u8),
+    /// Iterator::nth(k): an adapter the type may override
+    Nth(u8, u8),
 }
 
 fn gen_program(ch: &mut Chooser, depth: usize) -> Vec<Op> {
@@ -194,6 +196,8 @@ fn gen_program(ch: &mut Chooser, depth: usize) -> Vec<Op> {
             menu.push(Some(Op::Len(h)));
             menu.push(Some(Op::Hint(h)));
             menu.push(Some(Op::Fmt(h)));
+            menu.push(Some(Op::Nth(h, 1)));
+            menu.push(Some(Op::Nth(h, 7)));
         }
         if live < 2 {
             menu.push(Some(Op::Clone(0)));
@@ -267,6 +271,42 @@ fn history(ctx: &mut Ctx, arena: &Arena, d: u32, ver: u32, l: usize, img: &[u8],
                     Out::Panic => {
                         if ok {
                             ctx.violation("c18/spurious-panic/next", || format!("step {}: next() panicked on a valid map", step));
+                            return;
+                        }
+                        real[h] = None;
+                    }
+                }
+            }
+            Op::Nth(h, kk) => {
+                let h = h as usize;
+                let kk = kk as usize;
+                let Some(it) = real[h].as_mut() else { continue };
+                match ctx.call("nth", || it.nth(kk).map(|e| obs_desc(e, map))) {
+                    Out::Val(Some(de)) => {
+                        let idx = model[h] + kk;
+                        if !ok || idx >= n {
+                            ctx.violation("c18/history/nth-extra-item", || format!("step {} {:?}: nth({}) yields an item with {} of {} consumed", step, op, kk, model[h], n));
+                            return;
+                        }
+                        if !check_desc(ctx, &de, idx, d, ver, l, img, ok) {
+                            return;
+                        }
+                        model[h] = idx + 1;
+                    }
+                    Out::Val(None) => {
+                        if !ok {
+                            ctx.violation("c18/no-refusal", || format!("step {}: nth() returned None on an invalid combination", step));
+                            return;
+                        }
+                        if model[h] + kk < n {
+                            ctx.violation("c18/history/nth-early-none", || format!("step {} {:?}: nth({}) = None with {} of {} consumed", step, op, kk, model[h], n));
+                            return;
+                        }
+                        model[h] = n;
+                    }
+                    Out::Panic => {
+                        if ok {
+                            ctx.violation("c18/spurious-panic/nth", || format!("step {}: nth() panicked on a valid map", step));
                             return;
                         }
                         real[h] = None;
@@ -365,8 +405,8 @@ fn run(ctx: &mut Ctx) {
         });
     }
     // histories
-    let depth = if quick { if ctx.dev_profile() { 4 } else { 5 } } else if ctx.dev_profile() { 6 } else { 7 };
-    ctx.bound("histories", format!("all call sequences up to depth {} over {{next, len, size_hint, Debug}} on up to 2 handles plus clone, on desc_size {{40,48,64}} x 0..=3 descriptors and six invalid combinations", depth));
+    let depth = if quick { 4 } else if ctx.dev_profile() { 5 } else { 6 };
+    ctx.bound("histories", format!("all call sequences up to depth {} over {{next, nth(1), nth(7), len, size_hint, Debug}} on up to 2 handles plus clone, on desc_size {{40,48,64}} x 0..=3 descriptors and six invalid combinations", depth));
     let mut inputs: Vec<(u32, u32, usize)> = vec![];
     for d in [40u32, 48, 64] {
         for k in 0..=3usize {
